@@ -432,7 +432,7 @@ static void caseC11det(vh::Rng& g)
 
 static void caseC11(uint64_t idx, vh::Rng& g)
 {
-	switch (idx % 4) { case 0: case 1: R->count("tree-histories"); caseC11tree(g); break; case 2: R->count("fa-histories"); caseC11fa(g); break; default: caseC11det(g); break; }
+	switch (vh::splitmix64(idx * 11 + 5) % 4) { /* not idx % 4: shards take i = k (mod n); every process mixes the three kinds */ case 0: case 1: R->count("tree-histories"); caseC11tree(g); break; case 2: R->count("fa-histories"); caseC11fa(g); break; default: caseC11det(g); break; }
 }
 
 int main(int argc, char** argv)
